@@ -263,6 +263,8 @@ def device(b, name, fail=False, color=None, power=None, features=None):
     wf = b.module('lifxlan.errors').ns['WorkflowException']
     dev = Opaque(name)
     dev.native = {'kind': 'device'}
+    if color is not None or power is not None:      # what the device reports, for native replays
+        dev.native['returns'] = dict(([('device_color', color)] if color is not None else []) + ([('device_power', power)] if power is not None else []))
     if fail == 'other':
         dev.native['raises'] = {'*': I.builtins['ValueError']}
 
